@@ -13,7 +13,7 @@ import random
 import rx
 
 from .. import chunking
-from ..common import Check, Outcome, Snap, subscribe, bootstrap
+from ..common import Check, Outcome, Snap, subscribe, subscribe2, bootstrap
 
 rs = bootstrap()
 import zstandard                                            # noqa: E402
@@ -69,7 +69,7 @@ class C16(Check):
     _ops = {}
 
     def generate(self, rng, tier, shard, nshards):
-        n = 300 if tier == 'quick' else 10 ** 7
+        n = 240 if tier == 'quick' else 10 ** 7
         big = 3 * 131072 + 17 if tier == 'quick' else 1 << 20
         for k in range(n):
             codec = ('gzip', 'zstd')[k % 2]
@@ -156,7 +156,7 @@ class C16(Check):
         if len(data) > (2 << 20) and case['data']['kind'] in ('zeros', 'text'):
             out.tags.append('multi-MiB-compressible')
 
-        c = subscribe(rx.from_(chunks).pipe(comp_op()), Snap())
+        c = subscribe2(rx.from_(chunks).pipe(comp_op()), out, 'compress', same=lambda x, y: b''.join(x) == b''.join(y))
         if c.err is not None or not c.done:
             return out.fail('compress-failed', error=repr(c.err), done=c.done)
         if not all(isinstance(x, bytes) for x in c.out):
@@ -177,7 +177,10 @@ class C16(Check):
             ch = self._rechunk(comp, c.out, r)
             if sum(1 for x in ch if x) >= 2:
                 out.nontrivial = True
-            d = subscribe(rx.from_(ch).pipe(decomp_op()), Snap())
+            if len(data) < (1 << 20) or r is case['rechunks'][0]:
+                d = subscribe2(rx.from_(ch).pipe(decomp_op()), out, 'decompress', same=lambda x, y: b''.join(x) == b''.join(y))
+            else:
+                d = subscribe(rx.from_(ch).pipe(decomp_op()), Snap())
             out.observed['rechunkings_checked'] += 1
             out.observed['chunks_fed'] += len(ch)
             mech = None
@@ -214,7 +217,7 @@ class C16(Check):
             if t >= 2:
                 variants.append([pre[:t // 2], pre[t // 2:]])
             for ch in variants:
-                d = subscribe(rx.from_(ch).pipe(decomp_op()), Snap())
+                d = subscribe2(rx.from_(ch).pipe(decomp_op()), out, 'decompress(truncated)', same=lambda x, y: True)
                 out.observed['truncations_checked'] += 1
                 if d.done:
                     out.fail('truncated-stream-completed', trunc=t, compressed_len=len(comp),
